@@ -85,11 +85,11 @@ theorem reader_sources_as_transcribed : skeletonReader = expectedReader := rfl
 
 def expectedRepo : List (String × String) := [
   ("crlrepository/NewCRLRepository", "1dcfe26e482fce93"),
-  ("crlrepository/Repository.AddCRL", "d7b49b29cbf05205"),
+  ("crlrepository/Repository.AddCRL", "eb2c4207a8192a4f"),
   ("crlrepository/Repository.storeCRLLocationsIfNotLoaded", "24163ff77f9f9a4b"),
   ("crlrepository/Repository.isEntryLoaded", "b37b39c6a979ebf5"),
   ("crlrepository/Repository.getOrAddEntry", "c9a485b99b2b662e"),
-  ("crlrepository/Repository.tryUpdateSignatureCertFromChain", "a75f232ef5c4c18e"),
+  ("crlrepository/Repository.tryUpdateSignatureCertFromChain", "baa010a2c1f20d59"),
   ("crlrepository/Repository.loadCRL", "d627ca0f36fe24a5"),
   ("crlrepository/Repository.addNewEmptyEntry", "f8c51786787b92b1"),
   ("crlrepository/Repository.createTempFile", "e1a7447dff0eb084"),
